@@ -351,7 +351,8 @@ class SimpleCorrelator(AbstractCorrelator):
                 if segment_status:
                     segment_status.status[str(seq_num)] = STATUS_EXPIRED
                     self._segment_status_store[str(ref_num)] = segment_status  # persist the update
-                    if self.get_cumulated_status(ref_num) == STATUS_EXPIRED:
+                    if self.get_cumulated_status(ref_num) in (STATUS_EXPIRED, STATUS_FAILED):
+                        # This was the last outstanding segment (others may have been rejected)
                         await self.hook.send_error(
                             segment_status.orig_submit_sm, _EXPIRED_ERROR, self.client_id
                         )
